@@ -264,7 +264,7 @@ class InlineIndex:
         pre = blocks[bi]
         for i, a in enumerate(call["args"]):
             pre["s"].append({"k": "assign", "p": {"l": off + 1 + i, "t": 0}, "r": {"k": "use", "o": a}, "ln": ln, "inl": g.qname})
-        pre["t"] = {"k": "goto", "t": base, "ln": ln, "inlined_call": g.qname}
+        pre["t"] = {"k": "goto", "t": base, "ln": ln, "inlined_call": g.qname, "dest": dest, "cont": target, "args": list(call["args"])}
 
     def _splice_async(self, blocks, locals_, vars_, bi, poll, g, create, f):
         off = len(locals_)
@@ -292,6 +292,19 @@ class InlineIndex:
         if len(poll["args"]) > 1:
             pre["s"].append({"k": "assign", "p": {"l": off + 2, "t": 0}, "r": {"k": "use", "o": poll["args"][1]}, "ln": ln})
         pre["t"] = {"k": "goto", "t": base, "ln": ln, "inlined_call": g.qname}
+        # The block after the poll switches on Ready/Pending of the poll result. It is now reached only
+        # from the spliced returns, i.e. always with Ready: make that explicit, otherwise the Pending
+        # edge would re-enter the helper (a spurious loop through code that runs once).
+        tb = blocks[target]
+        tt = tb["t"]
+        if tt["k"] == "switch":
+            dl = (tt["d"].get("c") or tt["d"].get("m") or {}).get("l")
+            for st in tb["s"]:
+                if st["k"] == "assign" and st["p"]["l"] == dl and st["r"]["k"] == "discr" and st["r"]["p"]["l"] == dest["l"] and "variants" in st["r"]:
+                    rv = [v for v, n in st["r"]["variants"] if n == "Ready"]
+                    tg = [b for v, b in tt["vals"] if rv and v == rv[0]]
+                    if tg:
+                        blocks[target] = dict(tb, t={"k": "goto", "t": tg[0], "ln": tt.get("ln", ln)})
 
 
 def apply(F, role_names=()):
@@ -343,6 +356,7 @@ def apply(F, role_names=()):
         b = F.body_of(h)
         if b is not h:
             gone_set.add(b)
+    F.helpers = {h.qname: h for h in gone}
     F.fns = [f for f in F.fns if f not in gone_set]
     for f in gone_set:
         F.by_path.pop(f.path, None)
